@@ -251,6 +251,22 @@ def deleteWebentity (s : State) (weid : Nat) (prefixes : List Bytes) : State × 
   | .error e => (s, .error e)
   | .ok idx => (idx.foldl (fun st pn => st.modCell pn.2 (fun c => { c with we := 0 })) s, .ok ())
 
+/-- the look-ups of `delete_webentity(…, check_for_corruption=False)`: prefix ↦ node or `None`, in a dict -/
+def deleteScanUnchecked (s : State) : List Bytes → List (Bytes × Option Nat) → List (Bytes × Option Nat)
+  | [], idx => idx
+  | p :: ps, idx => deleteScanUnchecked s ps (dictSet idx p (s.lruNode (lruIter p)))
+
+/-- its write loop: a prefix that is not in the trie stops it (`None.unset_webentity()` is an AttributeError) after
+    the prefixes before it — in the order of the dict — have been detached -/
+def deleteWrites : State → List (Bytes × Option Nat) → State × Except Err Unit
+  | s, [] => (s, .ok ())
+  | s, (_, none) :: _ => (s, .error (.other "AttributeError"))
+  | s, (_, some n) :: rest => deleteWrites (s.modCell n (fun c => { c with we := 0 })) rest
+
+/-- `delete_webentity(weid, prefixes, check_for_corruption=False)` (the id is ignored) -/
+def deleteUnchecked (s : State) (prefixes : List Bytes) : State × Except Err Unit :=
+  deleteWrites s (deleteScanUnchecked s prefixes [])
+
 /-- `add_prefix_to_webentity(prefix, weid)` -/
 def addPrefix (s : State) (pfx : Bytes) (weid : Nat) : State × Except Err Unit :=
   let (s1, n, _) := s.addLru (lruIter pfx) true
